@@ -43,8 +43,11 @@ def correlation_centroid(im, ref, threshold=0., padding=1):
 
         cx, cy = centre_of_gravity(corr, threshold=threshold)
 
-        cy -= float(ny) / 2. * (float(padding) - 1)
-        cx -= float(nx) / 2. * (float(padding) - 1)
+        # fftshift puts zero lag at index (n*padding)//2 of the padded correlation;
+        # refer it to the centre n//2 of the unpadded array (n/2*(padding-1) is half
+        # a pixel off when n is odd and padding is even)
+        cy -= (ny * padding) // 2 - ny // 2
+        cx -= (nx * padding) // 2 - nx // 2
 
         centroids[:, frame] = cx, cy
 
